@@ -18,11 +18,12 @@ import os
 import re
 import sys
 
+sys.path.insert(0, os.path.dirname(os.path.abspath(__file__)))
+from rust_lex import Unrecognised  # noqa: E402
+import coerce_arms  # noqa: E402
+import type_names  # noqa: E402
+
 ROOT = os.path.dirname(os.path.dirname(os.path.abspath(__file__)))
-
-
-class Unrecognised(Exception):
-    pass
 
 
 def repo_root():
@@ -281,18 +282,44 @@ def render(repo):
     return "\n".join(out) + "\n"
 
 
-def main():
+# (generated module, properties whose obligations read it, renderer)
+GENERATORS = [
+    ("ArrowVersions", ["C19"], render),
+    ("CoerceArms", ["C07"], coerce_arms.render),
+    ("TypeNames", ["C09"], type_names.render),
+]
+
+
+def main(argv):
+    """run.py [--prop Cxx]: every file is regenerated on every run; the exit status is non-zero when a source
+    shape was not recognised by a generator that serves the given property (by any generator without --prop)"""
+    prop = None
+    if len(argv) >= 2 and argv[0] == "--prop":
+        prop = argv[1]
+    elif argv:
+        print("usage: run.py [--prop Cxx]")
+        return 2
+    rc = 0
     try:
         repo = repo_root()
-        text = render(repo)
     except Unrecognised as e:
-        print(f"translator: source shape not recognised: {e}")
+        print(f"translator: {e}")
         return 1
-    changed = write_if_changed(os.path.join(ROOT, "lean", "SaModel", "Generated", "ArrowVersions.lean"), text)
-    if changed:
-        print(f"translator: regenerated lean/SaModel/Generated/ArrowVersions.lean from {repo}")
-    return 0
+    for name, props, fn in GENERATORS:
+        rel = os.path.join("lean", "SaModel", "Generated", name + ".lean")
+        try:
+            text = fn(repo)
+        except Unrecognised as e:
+            concerns = prop is None or prop in props
+            print(f"translator: {rel} ({', '.join(props)}): source shape not recognised: {e}"
+                  + ("" if concerns else f" [does not concern {prop}]"))
+            if concerns:
+                rc = 1
+            continue
+        if write_if_changed(os.path.join(ROOT, rel), text):
+            print(f"translator: regenerated {rel} from {repo}")
+    return rc
 
 
 if __name__ == "__main__":
-    sys.exit(main())
+    sys.exit(main(sys.argv[1:]))
